@@ -436,6 +436,9 @@ def main(ctx):
     jobs.append((shard_encode, "encoders", ("bits", bits)))
     rep = common.run_shards(ctx, jobs)
     rep.rule = (
+        "bodies of 2^24-1 and 2^24 bytes (3-/4-octet length forms: canonical, "
+        "trailing data, truncated) through every decoder without per-octet "
+        "loops; "
         "every byte string of length <= 2 over all 256 symbols and of length "
         "<= %d over the structural alphabet Sigma (15 tag/length/boundary "
         "bytes)%s into each of 10 decoder entry points; verdict and value "
